@@ -1,5 +1,194 @@
-import Bec2Verif.Model.EcOps
-/-! # C18 — signatures (theorems follow) -/
+import Bec2Verif.Lemmas.EcdsaSound
+import Bec2Verif.Lemmas.EcdsaCodec
+import Bec2Verif.Props.C17Group
+/-!
+# C18 — ECDSA: signatures verify, range and malformed signatures are rejected, codecs round-trip, RFC 6979 range
+
+The models are `Model/Ecdsa.lean` (`Private_key.sign`, `Public_key.verifies`, digest truncation, the signature
+encoders / decoders of `util.py`, `generate_k` of `rfc6979.py` over a parametric hash) on top of the point arithmetic
+of C17.  `G p a b` is Mathlib's group of the curve; the scalar side is `ZMod N`.
+
+What is a theorem here: sign→verify for every secret, hash value and nonce; `verifies` = the textbook equation (so a
+pair is accepted iff it satisfies ECDSA's verification equation — nothing else is accepted, nothing valid is refused);
+validity is invariant under `s ↦ n − s` (the canonical encodings stay valid); out-of-range pairs are `False` /
+`BadSignatureError`; undecodable signatures are `BadSignatureError`; string and DER signature encodings round-trip;
+RFC 6979 returns `1 ≤ k < n`.
+
+What is not and cannot be a theorem: that flipping one bit of the message or of the signature *always* fails
+(it fails except with negligible probability — a statement about SHA-2 and the discrete logarithm, not about this
+code), agreement with OpenSSL, and the RFC 6979 test vectors: those are evaluated directly on the real code by the
+`prop.c18*` operations against a textbook ECDSA, an independent RFC 6979 and the OpenSSL binary.
+-/
 namespace Bec2Verif.C18
-theorem placeholder : True := trivial
+open Bec2Verif Ec EcC EcF Ecdsa EcdsaC WeierstrassCurve C17
+
+variable {p : ℕ} [Fact p.Prime] {a b : ℤ}
+
+/-- a point of prime order `N`: `k • P = 0 ↔ N ∣ k` -/
+theorem order_exact (N : ℕ) (hNp : N.Prime) (P : G p a b) (hNP : (N : ℤ) • P = 0) (hP0 : P ≠ 0) (k : ℤ) :
+    k • P = 0 ↔ (N : ℤ) ∣ k := by
+  have hdvd : addOrderOf P ∣ N := by
+    apply addOrderOf_dvd_of_nsmul_eq_zero
+    have : ((N : ℕ) : ℤ) • P = 0 := hNP
+    rwa [natCast_zsmul] at this
+  have hord : addOrderOf P = N := by
+    rcases (Nat.dvd_prime hNp).mp hdvd with h | h
+    · exact absurd (AddMonoid.addOrderOf_eq_one_iff.mp h) hP0
+    · exact h
+  rw [← hord]
+  exact (addOrderOf_dvd_iff_zsmul_eq_zero).symm
+
+/-- **signatures verify.**  Domain: curve over the prime field `p` satisfying `CurveOK`, generator `Gp` (affine,
+reduced x) of odd prime order `N`.  Whatever the secret, the hash value and the nonce are, a pair returned by `sign` is
+accepted by `verifies` under the public point `secret • Gp` — for every representation `Q` of that point with a
+reduced X (what `from_string`, `from_der` and `generator * secret` produce). -/
+theorem signatures_verify (hc : CurveOK p a b) (d : Domain) (hcp : d.curve.p = p) (hca : d.curve.a = a)
+    (N : ℕ) (hN : d.n = (N : ℤ)) (hNp : N.Prime) (hN2 : N ≠ 2)
+    (Gp : G p a b) (hG : TRep p a b Gp (d.gx, d.gy, 1)) (hgx : 0 ≤ d.gx ∧ d.gx < (p : ℤ))
+    (hNG : (N : ℤ) • Gp = 0) (hG0 : Gp ≠ 0)
+    (secret : ℤ) (Q : PJ) (hQ : PRep p a b (secret • Gp) Q.pt) (hQx : XCPt (p : ℤ) Q.pt)
+    (hQo : Q.order = 0 ∨ Q.order = d.n) (hQg : Q.gen = false)
+    (hash randomK r s : ℤ) (hs : sign d secret hash randomK = .ok (r, s)) :
+    verifies d Q hash r s = .ok true :=
+  sign_verifies hc d hcp hca N hN hNp hN2 Gp hG hgx (order_exact N hNp Gp hNG hG0) secret Q hQ hQx hQo hQg
+    hash randomK r s hs
+
+/-- the same without primality of `N` and for any kind of public-point object, in the weaker form "never rejected":
+the only other outcome is the `ValueError` of a failed modular inversion -/
+theorem signatures_verify_partial (hc : CurveOK p a b) (d : Domain) (hcp : d.curve.p = p) (hca : d.curve.a = a)
+    (N : ℕ) (hN : d.n = (N : ℤ)) (hN0 : 0 < N)
+    (Gp : G p a b) (hG : TRep p a b Gp (d.gx, d.gy, 1)) (hgx : 0 ≤ d.gx ∧ d.gx < (p : ℤ))
+    (hGord : ∀ k : ℤ, k • Gp = 0 ↔ (N : ℤ) ∣ k)
+    (secret : ℤ) (Q : PJ) (hQ : PRep p a b (secret • Gp) Q.pt) (hQx : XCPt (p : ℤ) Q.pt)
+    (hQo : Q.order = 0 ∨ Q.order = d.n) (hQg : Q.gen = true → 0 < Q.order)
+    (hash randomK r s : ℤ) (hs : sign d secret hash randomK = .ok (r, s)) :
+    verifies d Q hash r s = .ok true ∨ verifies d Q hash r s = .error .valueError :=
+  sign_verifies_sound hc d hcp hca N hN hN0 Gp hG hgx hGord secret Q hQ hQx hQo hQg hash randomK r s hs
+
+/-- **what is accepted**: exactly the pairs with `1 ≤ r, s ≤ n − 1` for which `(h·s⁻¹)·G + (r·s⁻¹)·Q` is a finite
+point whose x-coordinate (canonical representative) is `r` modulo `n` — for *any* point `Q` of the group (`B`),
+matching key or not; every other pair gets `False`, never an exception -/
+theorem verifies_is_textbook (hc : CurveOK p a b) (d : Domain) (hcp : d.curve.p = p) (hca : d.curve.a = a)
+    (N : ℕ) (hN : d.n = (N : ℤ)) (hNp : N.Prime) (hN2 : N ≠ 2)
+    (Gp : G p a b) (hG : TRep p a b Gp (d.gx, d.gy, 1)) (hgx : 0 ≤ d.gx ∧ d.gx < (p : ℤ))
+    (hNG : (N : ℤ) • Gp = 0) (hG0 : Gp ≠ 0)
+    (B : G p a b) (hBo : d.n • B = 0) (Q : PJ) (hQ : PRep p a b B Q.pt)
+    (hQx : XCPt (p : ℤ) Q.pt) (hQo : Q.order = 0 ∨ Q.order = d.n) (hQg : Q.gen = false) (hash r s : ℤ) :
+    (verifies d Q hash r s = .ok true ↔
+      (1 ≤ r ∧ r ≤ d.n - 1) ∧ (1 ≤ s ∧ s ≤ d.n - 1) ∧
+      ∃ (c : ℤ) (x' y' : ZMod p) (hns : (W (a : ZMod p) (b : ZMod p)).Nonsingular x' y'),
+        (c : ZMod N) * (s : ZMod N) = 1 ∧ (hash * c) • Gp + (r * c) • B = .some x' y' hns ∧
+        ((x'.val : ℤ) % d.n = r)) ∧
+    (∃ v, verifies d Q hash r s = .ok v) :=
+  ⟨verifies_iff hc d hcp hca N hN hNp hN2 Gp hG hgx (order_exact N hNp Gp hNG hG0) B hBo Q hQ hQx hQo hQg hash r s,
+   verifies_total hc d hcp hca N hN hNp hN2 Gp hG (order_exact N hNp Gp hNG hG0) B hBo Q hQ hQo hQg hash r s⟩
+
+/-- the canonical-`s` encodings keep a signature valid: `(r, n − s)` is accepted iff `(r, s)` is -/
+theorem canonical_s_equivalent (hc : CurveOK p a b) (d : Domain) (hcp : d.curve.p = p) (hca : d.curve.a = a)
+    (N : ℕ) (hN : d.n = (N : ℤ)) (hNp : N.Prime) (hN2 : N ≠ 2)
+    (Gp : G p a b) (hG : TRep p a b Gp (d.gx, d.gy, 1)) (hgx : 0 ≤ d.gx ∧ d.gx < (p : ℤ))
+    (hNG : (N : ℤ) • Gp = 0) (hG0 : Gp ≠ 0)
+    (B : G p a b) (hBo : d.n • B = 0) (Q : PJ) (hQ : PRep p a b B Q.pt)
+    (hQx : XCPt (p : ℤ) Q.pt) (hQo : Q.order = 0 ∨ Q.order = d.n) (hQg : Q.gen = false) (hash r s : ℤ) :
+    verifies d Q hash r (d.n - s) = .ok true ↔ verifies d Q hash r s = .ok true :=
+  verifies_neg_s hc d hcp hca N hN hNp hN2 Gp hG hgx (order_exact N hNp Gp hNG hG0) B hBo Q hQ hQx hQo hQg hash r s
+
+/-- **out-of-range pairs** (`r` or `s` ≤ 0 or ≥ n: 0, n, n+1, 2^k …) are rejected — on any domain, with any key -/
+theorem out_of_range_rejected (d : Domain) (Q : PJ) (hash r s : ℤ)
+    (h : r < 1 ∨ r > d.n - 1 ∨ s < 1 ∨ s > d.n - 1) : verifies d Q hash r s = .ok false :=
+  verifies_range d Q hash r s h
+
+/-- … and at the `verify_digest` level that is `BadSignatureError` -/
+theorem out_of_range_is_bad_signature (d : Domain) (Q : PJ) (baselen : Nat) (sig digest : Bytes) (derEnc allow : Bool)
+    (number : Nat) (hd : truncateDigest digest baselen d.n.toNat allow = .ok number) (r s : Nat)
+    (hsig : (if derEnc then sigdecodeDer sig else sigdecodeString sig d.n.toNat) = .ok (r, s))
+    (h : (r : Int) < 1 ∨ (r : Int) > d.n - 1 ∨ (s : Int) < 1 ∨ (s : Int) > d.n - 1) :
+    verifyDigest d Q baselen sig digest derEnc allow = .error .badSignature :=
+  verifyDigest_range d Q baselen sig digest derEnc allow number hd r s hsig h
+
+/-- **malformed signatures**: whatever error the decoder raises, `verify_digest` raises `BadSignatureError` -/
+theorem malformed_is_bad_signature (d : Domain) (Q : PJ) (baselen : Nat) (sig digest : Bytes) (derEnc allow : Bool)
+    (number : Nat) (hd : truncateDigest digest baselen d.n.toNat allow = .ok number) (e : Err)
+    (hsig : (if derEnc then sigdecodeDer sig else sigdecodeString sig d.n.toNat) = .error e) :
+    verifyDigest d Q baselen sig digest derEnc allow = .error .badSignature :=
+  verifyDigest_malformed d Q baselen sig digest derEnc allow number hd e hsig
+
+/-- a raw signature of the wrong length is malformed -/
+theorem string_signature_length (sig : Bytes) (order : Nat) (h : sig.length ≠ 2 * PointCodec.orderlen order) :
+    sigdecodeString sig order = .error .malformedSignature := sigdecodeString_length sig order h
+
+/-- **encodings round-trip**: raw `r ‖ s` … -/
+theorem string_signature_roundtrip (r s order : Nat) (sig : Bytes) (h : sigencodeString r s order = .ok sig) :
+    sigdecodeString sig order = .ok (r, s) := sigdecodeString_encode r s order sig h
+
+theorem string_signature_encodes (r s order : Nat) (hr : r < 256 ^ PointCodec.orderlen order)
+    (hs : s < 256 ^ PointCodec.orderlen order) : ∃ sig, sigencodeString r s order = .ok sig :=
+  ⟨_, sigencodeString_ok r s order hr hs⟩
+
+/-- … and DER `SEQUENCE { INTEGER r, INTEGER s }` (numbers below 2^1000) -/
+theorem der_signature_roundtrip (r s : Nat) (hr : (Der.beBytes r).length + 1 < 128) (hs : (Der.beBytes s).length + 1 < 128)
+    (hl : Der.Encodable (Der.encodeInteger r ++ Der.encodeInteger s).length) :
+    sigdecodeDer (sigencodeDer r s) = .ok (r, s) := sigdecodeDer_encode r s hr hs hl
+
+/-- canonical `s`: at most `n/2`, still in range, idempotent -/
+theorem canonical_s (s order : Nat) (h1 : 1 ≤ s) (h2 : s < order) :
+    2 * canonS s order ≤ order ∧ (1 ≤ canonS s order ∧ canonS s order < order) ∧
+    canonS (canonS s order) order = canonS s order :=
+  ⟨canonS_le s order (by omega), canonS_range s order h1 h2, canonS_idem s order (by omega)⟩
+
+/-- **RFC 6979**: the derived nonce is in `[1, n)`, for every hash function, key, digest, retry count and extra
+entropy (equality with the RFC's vectors and with OpenSSL's deterministic mode is evaluated on the real code) -/
+theorem rfc6979_nonce_in_range (H : Hash) (order secexp : Nat) (data : Bytes) (retry : Nat) (extra : Bytes) (k : Nat)
+    (h : generateK H order secexp data retry extra = .ok k) : 1 ≤ k ∧ k < order :=
+  generateK_range H order secexp data retry extra k h
+
+/-! ### the hypotheses are satisfiable, the conclusions are not vacuous
+
+`y² = x³ − 3x + 8` over `F₂₃`: 31 points (prime), generator `(0, 10)`. -/
+
+def d23 : Domain := { curve := { p := 23, a := -3, b := 8 }, gx := 0, gy := 10, n := 31, h := 1 }
+
+theorem ns23 : (W ((-3 : ℤ) : ZMod 23) ((8 : ℤ) : ZMod 23)).Nonsingular 0 10 := by
+  rw [Affine.nonsingular_iff']
+  refine ⟨by rw [W_equation]; decide, Or.inr ?_⟩
+  simp only [W]; decide
+
+def G23 : G 23 (-3) 8 := .some 0 10 ns23
+
+theorem trep23 : TRep 23 (-3) 8 G23 (d23.gx, d23.gy, 1) := by
+  refine ⟨?_, wfz_one, ?_⟩
+  · intro _; revert ‹_›; simp [d23]; decide
+  · show Aff _ _ _
+    refine ⟨by simp [cst], ?_, ?_⟩ <;> simp [cst, d23]
+
+theorem ord23 : (31 : ℤ) • G23 = 0 := by
+  have h : mulNaf d23.curve 0 (.jac 0 10 1) 31 = some .inf := by decide +kernel
+  have := mulNaf_rep curveOK_23 d23.curve rfl rfl 0 (pt := .jac 0 10 1) trep23 (fun h => absurd rfl h) 31 h
+  exact this
+
+/-- every hypothesis of `signatures_verify` discharged on this domain: for EVERY secret, hash value and nonce, with
+the public point computed by the library's own `generator * secret`, the signature verifies -/
+theorem ecdsa23_end_to_end (secret hash randomK r s X Y Z : ℤ)
+    (hpub : pjMul d23.curve d23.G secret = some (.jac X Y Z))
+    (hs : sign d23 secret hash randomK = .ok (r, s)) :
+    verifies d23 { X := X, Y := Y, Z := Z, order := 31, gen := false } hash r s = .ok true := by
+  have hG : PRep 23 (-3) 8 G23 d23.G.pt := trep23
+  have hrep := pjMul_rep curveOK_23 d23.curve rfl rfl d23.G hG (fun _ => ord23) (fun _ => by decide) secret hpub
+  have hxc := pjMul_xc d23.curve (by decide) d23.G (by show XC 23 (0, 10, 1); exact ⟨by decide, by decide⟩) secret _ hpub
+  exact signatures_verify curveOK_23 d23 rfl rfl 31 rfl (by decide) (by decide) G23 trep23 ⟨by decide, by decide⟩
+    ord23 (by intro h; cases h) secret { X := X, Y := Y, Z := Z, order := 31, gen := false } hrep hxc (Or.inr rfl) rfl
+    hash randomK r s hs
+
+/-- a concrete signature (`secret = 7`, `hash = 5`, nonce 3) and its verification, by evaluation of the model … -/
+example : sign d23 7 5 3 = .ok (3, 19) := by decide +kernel
+
+/-- … which the theorem predicts -/
+example : verifies d23 { X := 7, Y := 10, Z := 1, order := 31, gen := false } 5 3 19 = .ok true ∧
+    verifies d23 { X := 21, Y := 20, Z := 16, order := 31, gen := false } 5 3 19 = .ok true ∧
+    verifies d23 { X := 7, Y := 10, Z := 1, order := 0, gen := false } 5 3 (31 - 19) = .ok true ∧
+    verifies d23 { X := 7, Y := 10, Z := 1, order := 0, gen := false } 6 3 19 = .ok false := by decide +kernel
+
+example : (Der.beBytes 115792089210356248762697446949407573529996955224135760342422259061068512044368).length + 1 < 128 := by
+  decide +kernel
+
 end Bec2Verif.C18
